@@ -151,8 +151,12 @@ def run_property(P, tier, seed, scratch, args, t0):
             if re.search(r"//@harness[^\n]*props=[^\n ]*\b%s\b" % P, raw):
                 undecided.append(("unit " + uname, "extraction failed: %r" % e))
             continue
+        # `quickfor=Cxx,Cyy`: in the quick tier the harness runs only for the named properties (it still
+        # serves every property of its props list in the thorough tier).  Used to keep C01's quick check -
+        # whose obligations are by-products of every harness - from re-running every unit.
         hs = [h for h in ub.harnesses if P in h["props"]
               and (tier == "thorough" or h.get("tier", "quick") != "thorough")
+              and (tier == "thorough" or not h.get("quickfor") or P in h["quickfor"].split(","))
               and (not args.only or args.only in h["name"])]
         if not hs:
             continue
